@@ -20,6 +20,7 @@ import (
 	slim "github.com/openacid/slim/trie"
 	"github.com/openacid/testkeys"
 
+	"slimverif/harness/fam/leg"
 	ft "slimverif/harness/fam/trie"
 	"slimverif/harness/gen"
 	"slimverif/harness/lp"
@@ -109,6 +110,10 @@ type subject struct {
 	keys     []string
 	complete bool
 	intW     int
+	// mk makes another instance of the same trie that no call has read yet (nil: not available):
+	// the goroutines of a round start on such an instance, so that also the FIRST reads of an
+	// instance are concurrent (lazy initialisation on first use is invisible after a sequential pass)
+	mk func() *slim.SlimTrie
 }
 
 func main() {
@@ -143,16 +148,30 @@ func main() {
 		if encName == "i32" {
 			w = 4
 		}
-		sub := subject{"fresh:" + ks.Class + ":" + flags + ":" + encName, st, ft.S.Enc, ks.Keys, cs.Inner && cs.Leaf, w}
+		sub := subject{"fresh:" + ks.Class + ":" + flags + ":" + encName, st, ft.S.Enc, ks.Keys, cs.Inner && cs.Leaf, w, nil}
+		sub.mk = func() *slim.SlimTrie {
+			if lp.Exec(line) != "ok" {
+				return nil
+			}
+			return ft.S.St
+		}
 		if i%2 == 1 {
 			b, _ := st.Marshal()
-			st2, _ := slim.NewSlimTrie(ft.S.Enc, nil, nil)
+			enc := ft.S.Enc
+			st2, _ := slim.NewSlimTrie(enc, nil, nil)
 			if err := st2.Unmarshal(b); err != nil {
 				c.Violate(lp.Violation{What: "reload", Script: []string{line}, Expected: "ok", Got: err.Error()})
 				continue
 			}
 			sub.st = st2
 			sub.name = "loaded:" + sub.name[6:]
+			sub.mk = func() *slim.SlimTrie {
+				x, _ := slim.NewSlimTrie(enc, nil, nil)
+				if x.Unmarshal(append([]byte{}, b...)) != nil {
+					return nil
+				}
+				return x
+			}
 		}
 		subjects = append(subjects, sub)
 	}
@@ -160,9 +179,53 @@ func main() {
 	fixtures, _ := filepath.Glob(filepath.Join(*repo, "trie/testdata/slimtrie-data-*"))
 	sort.Strings(fixtures)
 	r.Shuffle(len(fixtures), func(i, j int) { fixtures[i], fixtures[j] = fixtures[j], fixtures[i] })
+	// always among the subjects: layouts whose load converts stored prefixes (0.5.10) or renumbers nodes (0.5.9)
+	first := []string{"300vl50-allpref-0.5.10", "300vl50-innpref-0.5.10", "10ll16k-allpref-0.5.10", "11vl5-0.5.9"}
+	sort.SliceStable(fixtures, func(i, j int) bool {
+		pi, pj := len(first), len(first)
+		for k, f := range first {
+			if strings.HasSuffix(fixtures[i], "slimtrie-data-"+f) {
+				pi = k
+			}
+			if strings.HasSuffix(fixtures[j], "slimtrie-data-"+f) {
+				pj = k
+			}
+		}
+		return pi < pj
+	})
+	// legacy streams of generated key sets (reconstructed writers of fam/leg)
+	for _, variant := range []string{"allpref-0.5.10", "innpref-0.5.11", "0.5.9", "0.5.3"} {
+		ks := gen.Any(r, 200)
+		if len(ks.Keys) == 0 {
+			continue
+		}
+		keys := ks.Keys
+		stream, err := leg.Write(variant, keys, leg.I32Vals(len(keys)))
+		if err != nil {
+			continue
+		}
+		if vr, ok := leg.ParseVariant3(variant); ok {
+			if enc, _, _ := leg.Encodable3(vr, keys); !enc {
+				continue
+			}
+		}
+		mk := func() *slim.SlimTrie {
+			x, _ := slim.NewSlimTrie(encode.I32{}, nil, nil)
+			if x.Unmarshal(append([]byte{}, stream...)) != nil {
+				return nil
+			}
+			return x
+		}
+		st := mk()
+		if st == nil {
+			c.Violate(lp.Violation{What: "generated legacy stream must load", Script: []string{variant + " " + ks.Class}, Expected: "ok", Got: "error"})
+			continue
+		}
+		subjects = append(subjects, subject{"legacy-generated:" + variant + ":" + ks.Class, st, encode.I32{}, keys, strings.HasPrefix(variant, "allpref"), 4, mk})
+	}
 	nl := 0
 	for _, fn := range fixtures {
-		if nl >= c.Pick(4, 16) {
+		if nl >= c.Pick(6, 16) {
 			break
 		}
 		parts := strings.Split(filepath.Base(fn), "-")
@@ -180,7 +243,14 @@ func main() {
 			c.Violate(lp.Violation{What: "legacy fixture must load", Script: []string{fn}, Expected: "ok", Got: err.Error()})
 			continue
 		}
-		subjects = append(subjects, subject{"legacy:" + filepath.Base(fn), st, encode.I32{}, keys, len(parts) == 5 && parts[3] == "allpref", 4})
+		subjects = append(subjects, subject{"legacy:" + filepath.Base(fn), st, encode.I32{}, keys, len(parts) == 5 && parts[3] == "allpref", 4,
+			func() *slim.SlimTrie {
+				x, _ := slim.NewSlimTrie(encode.I32{}, nil, nil)
+				if x.Unmarshal(append([]byte{}, buf...)) != nil {
+					return nil
+				}
+				return x
+			}})
 		nl++
 	}
 
@@ -199,6 +269,14 @@ func main() {
 			var wg sync.WaitGroup
 			var mu sync.Mutex
 			bad := ""
+			// the sequential answers come from sub.st; the goroutines read an instance nobody has read
+			cst := sub.st
+			if sub.mk != nil {
+				if x := sub.mk(); x != nil {
+					cst = x
+					c.Hit("first-reads-concurrent")
+				}
+			}
 			perG := c.Pick(150, 600)
 			seeds := make([]int64, g)
 			for i := range seeds {
@@ -214,7 +292,7 @@ func main() {
 						if lr.Intn(3) == 0 {
 							runtime.Gosched()
 						}
-						got, pmsg := lp.CatchMsg(func() string { return ops[i].f(sub.st, sub.enc) })
+						got, pmsg := lp.CatchMsg(func() string { return ops[i].f(cst, sub.enc) })
 						if pmsg != "" {
 							got = "panic: " + pmsg
 						}
